@@ -142,9 +142,24 @@ def check_unchecked_access(rep, runs):
             elif getattr(o, "items", None) is not None:
                 stored += [(it[1] if it[0] == "v" else it[2]) for it in o.items]
         stored_terms = set()
+
+        def value_walk(t, seen=None):
+            """sub-terms a value is computed FROM; what merely selects between alternatives (conditions) is control flow"""
+            seen = set() if seen is None else seen
+            if id(t) in seen:
+                return
+            seen.add(id(t))
+            stored_terms.add(t)
+            if isinstance(t, Ite):
+                value_walk(t.a, seen), value_walk(t.b, seen)
+            elif isinstance(t, Op):
+                for a_ in t.args:
+                    value_walk(a_, seen)
+            elif isinstance(t, Lin):
+                for a_, _ in t.terms:
+                    value_walk(a_, seen)
         for t in stored:
-            for x in walk(t):
-                stored_terms.add(x)
+            value_walk(t)
         readers = {e.func for e in I.events if e.kind == "stream_data_read"}
         for e in I.events:
             if e.kind == "call" and e.func in readers and any(a in datas for a in e.data[1]):
@@ -158,11 +173,19 @@ def check_unchecked_access(rep, runs):
                           e.func, e.node, "bytes are taken from the stream buffer without a range check and flow into the output "
                           "(read past the end yields fabricated values)", node=e.node)
             if e.kind == "call" and e.data[0] == DS + ".check_range" and e.func.startswith("pel.peltool."):
-                # a PEL decoder that asks whether bytes remain and carries on without them accepts truncated input;
-                # the checked reads are what rejects it
+                # a PEL decoder that asks whether bytes remain and carries on without them accepts truncated input: after a
+                # "no" the decode must not be able to complete (the checked reads that follow have to run into the end all the
+                # same).  Completion = the entry point's last event; its path condition carries every "read succeeded" fact.
                 n += 1
-                rep.fail(rule, e.func, e.node, "the decoder tests the remaining length itself (check_range) instead of letting the checked "
-                         "read fail: a section cut short at this point is decoded as if it were complete", node=e.node)
+                rets = [x for x in I.events[e.seq:] if x.kind == "return" and x.func == DS + ".check_range" and len(x.stack) == len(e.stack) + 1]
+                res = rets[0].data[0] if rets else None
+                last = I.events[-1]
+                done = None
+                if res is not None:
+                    done = unsat(and_(last.guard, *[c for c in conj(e.guard)], not_(res)))[0]
+                rep.check(bool(done), rule, "%s:%s a failed check_range cannot lead to a completed decode" % (e.func.split(".")[-1], getattr(e.node, "lineno", "?")),
+                          e.func, e.node, "the decoder tests the remaining length itself (check_range) and can carry on without the bytes: a "
+                          "section cut short at this point is decoded as if it were complete", node=e.node)
             if e.kind == "attr_store" and is_stream_obj(I, e.data[0]) and e.data[1] in ("index", "data", "size") and \
                     not e.func.startswith(DS + "."):
                 n += 1
